@@ -227,7 +227,10 @@ var (
 	dB       = u.F("dB", "B", "B")
 	dAA      = u.F("dAA", "A", "A,A")
 	dNoRes   = u.F("dNoRes", "A", "")
-	dBadG    = u.F("dBadG", "{A*g}", "{A+g}") // decorating a group with a single value
+	dBadG    = u.F("dBadG", "{A*g}", "{A+g}")       // decorating a group with a single value
+	dAG      = u.F("dAG", "A,{A*g}", "A,{[A]!1+g}") // a single key, then a group
+	dGA      = u.F("dGA", "{A*g},A", "{[A]!1+g},A") // a group, then a single key
+	dBGo     = u.F("dBGo", "B", "{B;[A]!1+g}")      // both in one result object
 )
 
 func infoVariant(f *uFunc) *uFunc { return f.With(f.ID+"i", u.WithInfo) }
@@ -269,17 +272,28 @@ func c06Units(tier string) []Unit {
 		ring := alpha{scopes: sc2, ctors: []*uFunc{rAB, rBC, rCA, rSelf, rSelfG, rAgB, rBgC, pC}, export: true,
 			invokes: []*uFunc{iA, iB, iC}}
 		ringConts := alpha{scopes: sc2, ctors: []*uFunc{pA, pB, pC, rAB, rBC, rCA, rBgC}, export: true, invokes: []*uFunc{iA, iB, iC, iGB}}
+		if def && q {
+			continue // under DeferAcyclicVerification no Provide is rejected for a cycle
+		}
 		add("cycles"+tag, cfg, prefixChild, ring, ringConts, d, explore.Budget{Provides: 4, Invokes: 1, Rejected: 0})
 		sc3 := []int{0, 1, 2}
 		ring3 := alpha{scopes: sc3, ctors: []*uFunc{rAB, rBC, rCA}, export: true, invokes: []*uFunc{iA}}
 		ring3Conts := alpha{scopes: sc3, ctors: []*uFunc{pA, pB, pC, rAB, rBC, rCA}, invokes: []*uFunc{iA, iB, iC}}
 		add("cycles-fork3"+tag, cfg, prefixFork, ring3, ring3Conts, d, explore.Budget{Provides: 3, Invokes: 1, Rejected: 0})
 		add("cycles-chain3"+tag, cfg, prefixChain, ring3, ring3Conts, d, explore.Budget{Provides: 3, Invokes: 1, Rejected: 0})
-		// 3. decorators: conflict on first / second key, repeated key, invalid
-		deco := alpha{scopes: sc2, ctors: []*uFunc{pA, pB, fG1}, decos: []*uFunc{dA, dB, dAB, dAA, dNoRes, dBadG, dG, infoVariant(dAB)},
-			invokes: []*uFunc{iA, iB, iG}}
-		decoConts := alpha{scopes: sc2, ctors: []*uFunc{pA, pB, fG1}, decos: []*uFunc{dA, dB, dG}, invokes: []*uFunc{iA, iB, iG}}
-		add("decorator-conflicts"+tag, cfg, prefixChild, deco, decoConts, d, explore.Budget{Provides: 2, Decorates: 3, Invokes: 1, Rejected: 0})
+		// 3. decorators: conflict on first / second key, repeated key, invalid;
+		// single keys and whole groups, alone and mixed in one decorator
+		// (DeferAcyclicVerification plays no part in Decorate: quick runs it once)
+		if !def || !q {
+			deco := alpha{scopes: sc2, ctors: []*uFunc{pA, pB}, decos: []*uFunc{dA, dB, dAB, dAA, dNoRes, infoVariant(dAB)},
+				invokes: []*uFunc{iA, iB}}
+			decoConts := alpha{scopes: sc2, ctors: []*uFunc{pA, pB}, decos: []*uFunc{dA, dB}, invokes: []*uFunc{iA, iB}}
+			add("decorator-conflicts"+tag, cfg, prefixChild, deco, decoConts, d, explore.Budget{Provides: 2, Decorates: 3, Invokes: 1, Rejected: 0})
+			decoG := alpha{scopes: sc2, ctors: []*uFunc{pA, fG1}, decos: []*uFunc{dA, dG, dBadG, dAG, dGA, dBGo},
+				invokes: []*uFunc{iA, iG}}
+			decoGConts := alpha{scopes: sc2, ctors: []*uFunc{pA, pB, fG1}, decos: []*uFunc{dA, dB, dG}, invokes: []*uFunc{iA, iB, iG}}
+			add("decorator-conflicts-groups"+tag, cfg, prefixChild, decoG, decoGConts, d, explore.Budget{Provides: 2, Decorates: 3, Invokes: 1, Rejected: 0})
+		}
 	}
 	// 4. late child scope: rejected registrations before / after scope creation
 	late := alpha{scopes: []int{0, 1}, ctors: []*uFunc{rAB, rBC, rCA, rAgB, rBgC}, export: true, invokes: []*uFunc{iA, iB}, scopeOps: []int{0}}
